@@ -208,6 +208,25 @@ fn check_backend(
             if f6 && s == Sat::No && !t && cx.known("rand-mix-zero-operand") {
                 excluded = true;
             }
+            // F18: JIT mul / div whose bound products include a NaN (0 * inf,
+            // inf / inf): the SSE lane min / max drop real products
+            let mut f18 = false;
+            if what == "jit" {
+                if let Op::Binary(o @ (BinaryOpcode::Mul | BinaryOpcode::Div), l, r) = op {
+                    let (a, b) = (iv_of(l).unwrap(), iv_of(r).unwrap());
+                    for x in [a.lower(), a.upper()] {
+                        for y in [b.lower(), b.upper()] {
+                            let p = if o == BinaryOpcode::Mul { x * y } else { x / y };
+                            if p.is_nan() && !x.is_nan() && !y.is_nan() {
+                                f18 = true;
+                            }
+                        }
+                    }
+                }
+            }
+            if f18 && s == Sat::No && !t && cx.known("F18-jit-interval-mul-nan-product") {
+                excluded = true;
+            }
             if excluded {
                 taint.insert(*n, true);
                 continue;
@@ -256,6 +275,8 @@ fn check_backend(
                     fail!(
                         if f6 {
                             "rand-mix-zero-operand".to_string()
+                        } else if f18 {
+                            "F18-jit-interval-mul-nan-product".to_string()
                         } else {
                             format!("enclosure-{what}")
                         },
@@ -503,15 +524,15 @@ impl Prop for P {
     fn plan(tier: Tier) -> Plan {
         match tier {
             Tier::Quick => Plan {
-                workers: 8,
-                cases_per_worker: 1500,
-                timeout_s: 1200,
+                workers: 16,
+                cases_per_worker: 15000,
+                timeout_s: 1800,
                 max_shrink_iters: 2000,
             },
             Tier::Thorough => Plan {
                 workers: 16,
-                cases_per_worker: 25000,
-                timeout_s: 7200,
+                cases_per_worker: 200000,
+                timeout_s: 14400,
                 max_shrink_iters: 2000,
             },
         }
